@@ -5,7 +5,10 @@ PATCH="$1"; shift
 cd /verif
 if ! git -C /repo diff --quiet; then echo "refusing: /repo has uncommitted changes"; exit 2; fi
 git -C /repo apply "$PATCH" || { echo "patch does not apply"; exit 2; }
-trap 'git -C /repo apply -R "$PATCH"; git -C /repo status --short | head -3' EXIT
+# bin/sim and bin/sim.race are rebuilt from the restored tree afterwards (otherwise the binaries of the seeded change stay behind).
+# the checks rewrite evidence/<id>.json on every run: keep the evidence of the unchanged tree, not of the seeded change
+EVBAK=$(mktemp -d /var/tmp/verif-evidence.XXXXXX); cp -a evidence/. "$EVBAK"/
+trap 'git -C /repo apply -R "$PATCH"; git -C /repo status --short | head -3; rm -rf evidence; mkdir evidence; cp -a "$EVBAK"/. evidence/; rm -rf "$EVBAK"; ./build.sh race >/dev/null 2>&1 || echo "rebuild of bin/ after the revert failed"' EXIT
 for p in "$@"; do
   echo "=== $p with $(basename $(dirname $PATCH))"
   timeout 1200 ./check "$p" quick 2>&1 | grep -E "VIOLATION|KNOWN-FINDING|HARNESS|evaluations|^  \[" | cut -c1-600 | head -12
